@@ -451,6 +451,63 @@ def jweFmt (w : World) (argv : List String) : Res :=
       | _, _ => fail
     | _ => fail
 
+/-! ### jose jwe enc -/
+
+/-- `jose jwe enc [-i TMPL] -I PT [-r RCP ...] -k JWK ... [-o JWE] [-O CT] [-c]` (no password prompt);
+    `rnd` is the stream `RAND_bytes` delivers (CEK, per-recipient IVs / salts, then the content IV) -/
+def jweEnc (P : Prims) (w : World) (argv : List String) (rnd : Bs) : Res :=
+  match parseOpts ['i', 'I', 'r', 'k', 'o', 'O'] argv with
+  | none => fail
+  | some os =>
+    let rcpsO := (optsOf os 'r').foldl (fun acc a => acc.bind fun l => (loadJsonArg w a).map (l ++ [·])) (some [])
+    let inpO := inputSet w jweFields ((lastOpt os 'i').getD "{}")
+    match foldOpt (addJwks w) (optsOf os 'k'), inpO, rcpsO with
+    | some keys, some inp, some rcps0 =>
+      if (optsOf os 'I').any (fun f => (readSrc w f).isNone) then fail else
+      let compact := hasFlag os 'c'
+      if keys.isEmpty then fail else
+      if keys.length > 1 && compact then fail else
+      match lastOpt os 'I' with
+      | none => fail                                  -- "Must specify detached input!"
+      | some dfile =>
+        if keys.length < rcps0.length then fail else
+        let rcps := rcps0 ++ List.replicate (keys.length - rcps0.length) (.obj [])
+        match Jwe.encJwkKeys P (some (.arr rcps)) keys 0 inp.obj (.obj []) rnd, readRaw w dfile with
+        | some (obj1, cek, rnd1), some pt =>
+          -- compact: everything in force goes into the protected header, the other headers are dropped
+          let obj2O : Option Json :=
+            if compact then
+              match Entity.jweHdr obj1 (some obj1), obj1 with
+              | some jh, .obj k1 => some (.obj (delKV "header" (delKV "unprotected" (setKV "protected" jh k1))))
+              | _, _ => none
+            else some obj1
+          match obj2O.bind (fun o => Jwe.encCek P o cek pt rnd1) with
+          | some full =>
+            match full.get? "ciphertext" with
+            | some (.str cts) =>
+              let text := B64.bytesOfString cts
+              let out := (lastOpt os 'o').getD "-"
+              let detach := lastOpt os 'O'
+              let pre : Option Res :=
+                match detach with
+                | none => some { status := 0 }
+                | some f => (B64.decode text).map fun raw => emit f raw { status := 0 }
+              match pre with
+              | none => fail
+              | some r0 =>
+                if compact then
+                  match optMember full "protected", optMember full "encrypted_key", optMember full "iv", full.get? "tag" with
+                  | some a, some b, some c, some (.str tg) =>
+                    emit out (bs (a.getD "" ++ "." ++ b.getD "" ++ "." ++ c.getD "" ++ ".") ++ (if detach.isSome then [] else text) ++ bs ("." ++ tg)) r0
+                  | _, _, _, _ => fail
+                else
+                  emit out (writeJson "ciphertext" (if detach.isSome then none else some text)
+                    (match full with | .obj k => .obj (delKV "ciphertext" k) | o => o)) r0
+            | _ => fail
+          | none => fail
+        | _, _ => fail
+    | _, _, _ => fail
+
 /-! ### jose jwe dec -/
 
 /-- the end of `jose jwe dec`: unwrap, build the decryptor, decrypt the ciphertext bytes; the
